@@ -281,14 +281,15 @@ class Module:
                         self.defs[t.id] = st
 
     def resolve(self, name, ctx):
+        # a harness override is looked up on every resolution and never cached in the module environment: harnesses install closures over their
+        # per-path state and remove them afterwards (a cached override would keep serving the first path's closure, also after it was removed)
+        ov = self.interp.overrides.get((self.name, name))
+        if ov is not None:
+            return ov
         if name in self.env.vars:
             return self.env.vars[name]
         if ctx is not None and (self.name, name) in ctx.module_consts:
             return ctx.module_consts[(self.name, name)]
-        ov = self.interp.overrides.get((self.name, name))
-        if ov is not None:
-            self.env.vars[name] = ov
-            return ov
         if name in self.defs:
             if name in self._loading:
                 raise OutsideSubset(f"cyclic module-level definition {name}")
@@ -491,8 +492,20 @@ class Interp:
         _PAR_JOB = (self, harness, label)
         ctxm = mp.get_context("fork")
         nproc = min(len(roots), int(os.environ.get("VF_PROCS", "16")))
-        with ctxm.Pool(nproc) as pool:
-            results = pool.map(_par_worker, [list(r) for r in roots], chunksize=1)
+        limit = int(os.environ.get("VF_POOL_SECONDS", "1500"))
+        try:
+            with ctxm.Pool(nproc) as pool:
+                results = pool.map_async(_par_worker, [list(r) for r in roots], chunksize=1).get(timeout=limit)
+        except mp.TimeoutError:
+            # forked workers that never report (observed once with a modified tree after solver timeouts in the parent): the verdict must not hang --
+            # the roots are explored again in this process, one after the other
+            self.run.notes.append(f"{label}: worker pool did not finish within {limit}s; explored serially")
+            pending = [list(r) for r in roots]
+            os.environ["VF_SERIAL"] = "1"
+            try:
+                return self.explore(harness, label, roots=pending)
+            finally:
+                os.environ.pop("VF_SERIAL", None)
         total = 0
         for obs, n, secs, dropped, err in results:
             if err:
@@ -684,6 +697,22 @@ class Ctx:
         # unknown: algebraic back ends first (exact), then a second SMT tactic
         from . import algebra
         t1 = time.time()
+        if is_z3(claim) and z3.is_and(claim):
+            # a conjunction the solver gives up on as a whole: (in)equalities one by one by SMT, the equalities between rational expressions as polynomial
+            # identities (exact expansion; holds for all values, so the path condition is not needed)
+            parts = claim.children()
+            eqs = [c for c in parts if z3.is_eq(c) and c.children()[0].sort() == z3.RealSort()]
+            rest = [c for c in parts if not any(c is e for e in eqs)]
+            ok = all(self._check(z3.Not(c)) == z3.unsat for c in rest)
+            if ok:
+                for e in eqs:
+                    if not (algebra.prove_by_expansion(e) or self._check(z3.Not(e)) == z3.unsat):
+                        ok = False
+                        break
+            if ok:
+                self.run.ob(oid, core.DISCHARGED, "z3+sympy-expand", dt + time.time() - t1, text=txt[:1500], klass=klass)
+                self.assume(claim)
+                return True
         if algebra.prove_by_expansion(claim):
             self.run.ob(oid, core.DISCHARGED, "sympy-expand", dt + time.time() - t1, text=txt[:1500], klass=klass)
             self.assume(claim)
